@@ -103,6 +103,9 @@ func GenUniverse(r *common.Rand, k Knobs, c *Config) *Universe {
 		if t.Kind == KObject && t.Name != c.Super.Query {
 			objs = append(objs, t)
 			n := 1 + r.Pick(3)
+			if k["duplists"] {
+				n = 2 + r.Pick(3)
+			}
 			for i := 1; i <= n; i++ {
 				g.inst[t.Name] = append(g.inst[t.Name], fmt.Sprintf("%s%d", strings.ToLower(t.Name), i))
 			}
@@ -155,6 +158,9 @@ func (g *uniGen) val(typ string, fd *FieldDef, t *TypeRef, key string, uniq int,
 		}
 	}
 	if t.Kind == TList {
+		if g.k["duplists"] && t.Of.Nullable().Kind == TNamed && !g.c.Super.IsLeaf(t.Of.Base()) && g.r.Chance(1, 2) {
+			return g.dupList(typ, fd, t.Of, key, uniq, stable)
+		}
 		n := g.r.Pick(4)
 		out := &FVal{Kind: FLst}
 		for i := 0; i < n; i++ {
@@ -178,6 +184,39 @@ func (g *uniGen) val(typ string, fd *FieldDef, t *TypeRef, key string, uniq int,
 	}
 	p := common.PickOf(g.r, cands)
 	return &FVal{Kind: FRef, Type: p, Key: common.PickOf(g.r, g.inst[p])}
+}
+
+// dupList: a list of objects drawn from a pool of 2-3 distinct values following patterns with
+// repeats before and after a new element (a,a,b,c,b ...), optionally with a null in the middle
+// when the item type is nullable.
+var dupPatterns = [][]int{
+	{0, 0, 1, 2, 1}, {0, 0, 1, 1}, {0, 1, 0, 2, 2, 1}, {0, 0, 0, 1, 2, 1, 0}, {0, 1, 1, 2, 0, 2}, {0, -1, 1, 2, 1}, {0, 0, -1, 1, 2, 2, 1},
+	{-1, 0, 1, 0, 1}, {0, 1, 2, 0, 1, 2}, {0, 0, 1},
+}
+
+func (g *uniGen) dupList(typ string, fd *FieldDef, item *TypeRef, key string, uniq int, stable bool) *FVal {
+	var pool []*FVal
+	for _, p := range g.c.Super.PossibleTypes(item.Base()) {
+		for _, k := range g.inst[p] {
+			pool = append(pool, &FVal{Kind: FRef, Type: p, Key: k})
+		}
+	}
+	if len(pool) == 0 {
+		return &FVal{Kind: FLst}
+	}
+	g.r.Shuffle(len(pool), func(a, b int) { pool[a], pool[b] = pool[b], pool[a] })
+	out := &FVal{Kind: FLst}
+	for _, ix := range common.PickOf(g.r, dupPatterns) {
+		if ix < 0 {
+			if item.IsNonNull() || !g.k["nulls"] {
+				continue
+			}
+			out.Items = append(out.Items, &FVal{Kind: FNullRef})
+			continue
+		}
+		out.Items = append(out.Items, pool[ix%len(pool)])
+	}
+	return out
 }
 
 var words = []string{"ash", "birch", "cedar", "elm", "fir", "oak", "pine", "yew"}
